@@ -390,8 +390,11 @@ func (r *RdbReader) CountZipmapItemsP(buf *util.SliceBuffer) int {
 	return i
 }
 
+// CountZipmapItems returns the number of items (fields + values) from the current
+// position of buf to the end of the zipmap, the position of buf is left unchanged.
 func (r *RdbReader) CountZipmapItems(buf *util.SliceBuffer) int {
 	n := 0
+	start := buf.Seek(0, 1)
 	for {
 		strLen, free := readZipmapItemLength(buf, n%2 != 0)
 		if strLen == -1 {
@@ -400,7 +403,7 @@ func (r *RdbReader) CountZipmapItems(buf *util.SliceBuffer) int {
 		buf.Seek(int64(strLen)+int64(free), 1)
 		n++
 	}
-	buf.Seek(0, 0)
+	buf.Seek(start, 0)
 	return n
 }
 
